@@ -15,16 +15,18 @@ HARNESS = {
         'library/common/exception_base.cpp', 'library/common/extract_funcname.cpp',
         'library/log/detail/log_data.cpp', 'library/log/detail/log_dest_data.cpp',
         'library/log/detail/log_attributes_container.cpp', 'library/log/log_attributes.cpp',
+        'library/log/detail/stream_log.cpp',
     ],
 }
 
 RULE = ('a case is a script on a fresh Logging singleton: duplicate-policy changes, creation of logs and recording '
         'destinations, filter settings (max/min/exact level 0..6, class lists) on logs and destinations, then '
         'messages: "T<ids>" sends all 49 (level, class) pairs to the id mask and asks the level pre-check for all 7 '
-        'levels. Exhaustive: every history of at most 2 (quick) / 3 (thorough) settings out of 4 types x 7 '
+        'levels, "V<name>" the same by log name, "M<name>" / "I<ids>" send the 49 messages through the real '
+        'LOG_LEVEL macro by name / by id. Exhaustive: every history of at most 2 (quick) / 3 (thorough) settings out of 4 types x 7 '
         'parameters with every duplicate policy in front of every later setting, on the log and (<= 2) on the '
         'destination; all 127 non-empty subsets of the 7 class names plus spelling variants; all id masks 0..63 over '
-        '4 logs; seeded random worlds. Non-trivial: the model delivers at least one message and withholds one.')
+        '4 logs; a family of log names that are prefixes of each other in every creation order; seeded random worlds. Non-trivial: the model delivers at least one message and withholds one.')
 TRUSTED_BASE = [
     'model Log/FilterModel.v written by hand from filters.cpp, the four filter headers, log.cpp, i_log_dest.cpp, '
     'logging.cpp, helper_function.hpp; comparison operators, enum orders, class texts, isLevelFilter set and the '
@@ -123,6 +125,16 @@ def reference(case, reset_on_ctor=False, bits=7):
     def find(name):
         return next((g for g in logs if g['name'] == name), None)
 
+    def find_spec(spec):
+        """log given by name or by '#<ids>' (getLog( id_t): several ids -> exception)"""
+        if spec.startswith('#'):
+            ids = int(spec[1:])
+            sel = [g for g in logs if ids & g['id']]
+            if sel and ids != sel[0]['id']:
+                raise _Exc('E:runtime_error')
+            return sel[0] if sel else None
+        return find(spec)
+
     def deliver(sel, l, c):
         r = []
         for g in sel:
@@ -165,7 +177,11 @@ def reference(case, reset_on_ctor=False, bits=7):
             out.append('id%d' % g['id'])
         elif k == 'D':
             ln, dn = a.split('/', 1)
-            g = find(ln)
+            try:
+                g = find_spec(ln)
+            except _Exc as e:
+                out.append(e.name)
+                continue
             if g is None:
                 out.append('nolog')
                 continue
@@ -176,7 +192,11 @@ def reference(case, reset_on_ctor=False, bits=7):
         elif k == 'F':
             tgt, st = a.split(':', 1)
             ln, _, dn = tgt.partition('/')
-            g = find(ln)
+            try:
+                g = find_spec(ln)
+            except _Exc as e:
+                out.append(e.name)
+                continue
             if g is None:
                 out.append('nolog')
                 continue
@@ -212,6 +232,17 @@ def reference(case, reset_on_ctor=False, bits=7):
             tbl = [deliver(sel, l, c) for l in range(7) for c in range(7)]
             out.append(('t', tbl, [precheck('id' if k == 'T' else 'name', int(a) if k == 'T' else a, l)
                                    for l in range(7)]))
+        elif k in 'MI':
+            # the guarded macros deliver what the plain send delivers; an id mask naming several logs
+            # makes the pre-check throw (documented restriction)
+            if k == 'I':
+                sel = by_ids(int(a))
+                if sel and int(a) != sel[0]['id']:
+                    out.append(('m', ['E:runtime_error'] * 49))
+                    continue
+            else:
+                sel = [g for g in [find(a)] if g]
+            out.append(('m', [deliver(sel, l, c) for l in range(7) for c in range(7)]))
         else:
             out.append('?')
     return out
@@ -232,6 +263,16 @@ def _compare(case, ir, **flags):
         if isinstance(e, str):
             if e != g:
                 return ('operation %s: expected %s, implementation answered %s' % (ops[i], e, g), i)
+        elif e[0] == 'm':
+            if not g.startswith('m:'):
+                return ('operation %s: unexpected result %s' % (ops[i], g[:60]), i)
+            tbl = _unrle(g[2:])
+            if len(tbl) != 49:
+                return ('operation %s: malformed table' % ops[i], i)
+            for j, (x, y) in enumerate(zip(e[1], tbl)):
+                if x != y:
+                    return ('operation %s (level-guarded macro), message (level %d, class %d): expected '
+                            'deliveries %s, got %s' % (ops[i], j // 7, j % 7, x, y), i)
         elif e[0] == 'q':
             ans = {'q': '.'}.get(g, 'E' if g == 'E:runtime_error' else g)
             if ans not in e[1][0]:
@@ -275,7 +316,8 @@ def _triage(case, ir):
     ops = [o for o in case.split(';') if o]
     kind = ops[r[1]][0] if 0 <= r[1] < len(ops) else '?'
     return (r[0], {'F': 'filter-setting', 'S': 'routing', 'N': 'routing', 'T': 'filtering', 'V': 'filtering',
-                   'Q': 'pre-check', 'R': 'pre-check'}.get(kind, 'other'))
+                   'Q': 'pre-check', 'R': 'pre-check', 'M': 'macro-by-name', 'I': 'macro-by-id',
+                   'L': 'log-creation', 'D': 'log-by-name'}.get(kind, 'other'))
 
 
 def spec_check(case, ir, mr):
@@ -314,7 +356,43 @@ CORPUS = [
     # routing
     'La;Lb;Da/x;Db/y;Db/z;Fb/y:l3;S3:31;S3:21;S2:31;S1:31;S4:31;Q3:1;Q1:1;Q4:1;Nb:31;Nc:31;Rc:3;Rb:3;Fb/q:M1;Fq:M1;Dq/x',
     'La;La;Lb;Da/x;Da/x;Fa/x:M2;T1;T3;T2;Va;Vb;Vc',
+    # names that are prefixes of each other, the longer one created first: by name every log answers for itself
+    'Lnet.debug;D#1/x;Lnet;D#2/y;F#1:m5;F#2:M2;Mnet;Vnet;Mnet.debug;Vnet.debug;I1;I2;Mne;Vne',
+    'Lnet.debug;Dnet.debug/x;Lnet;Dnet/y;Fnet.debug:m5;Fnet:M2;Vnet;Mnet;Vnet.debug;Mnet.debug;I1;I2;Mne;Vne',
+    'La;Lb;D#1/x;D#2/y;D#3/z;D#4/z;D#0/z;F#2:M1;F#2/y:m1;F#3:M1;F#8:M1;F#1/q:M1;T3',
 ]
+
+
+FAMILY = ['net', 'net.debug', 'n', 'netx', 'db']
+FAMILY_SETTINGS = ['M2', 'm5', 'l4', 'm3', 'M4', 'c' + _hex('Data,Accounting'), 'M0', 'l6']
+UNKNOWN_NAMES = ['ne', 'net.', 'd', 'netxx', 'net.debug.x']
+
+
+def _family_case(order, rot, interleaved, dest_filters=False, by_id=True):
+    """logs of the prefix family created in the given order, every log with its own filter (set
+    through the log id, or by name), then every name and every id probed by plain send, pre-check and
+    the guarded macros"""
+    st = {nm: FAMILY_SETTINGS[(FAMILY.index(nm) + rot) % len(FAMILY_SETTINGS)] for nm in order}
+    ref = {nm: ('#%d' % (1 << i) if by_id else nm) for i, nm in enumerate(order)}
+    ops = []
+    for nm in order:
+        ops += ['L' + nm, 'D%s/x' % ref[nm]]
+        if interleaved:
+            ops.append('F%s:%s' % (ref[nm], st[nm]))
+    if not interleaved:
+        for nm in reversed(order):
+            ops.append('F%s:%s' % (ref[nm], st[nm]))
+    if dest_filters:
+        for i, nm in enumerate(order):
+            ops.append('F%s/x:%s' % (ref[nm], FAMILY_SETTINGS[(i + rot + 3) % len(FAMILY_SETTINGS)]))
+    for nm in FAMILY:
+        ops += ['M' + nm, 'V' + nm] if rot % 2 == 0 else ['V' + nm, 'M' + nm]
+    for nm in UNKNOWN_NAMES[:2 + rot % 3]:
+        ops += ['V' + nm, 'M' + nm]
+    for i in range(len(order)):
+        ops += ['T%d' % (1 << i), 'I%d' % (1 << i)]
+    ops += ['I3', 'I0', 'I%d' % (1 << len(order))]
+    return ';'.join(ops)
 
 
 def _random_case(rng):
@@ -414,9 +492,28 @@ def gen_cases(tier, rng):
     # the 31-log limit
     many = ';'.join('L%d' % i for i in range(33))
     cases.append(many + ';D30/x;D31/x;S1073741824:11;S2147483648:11;S3221225472:11;Q1073741824:1;Q2147483648:1')
+    # log names that are prefixes of each other: every creation order of the family (and of its
+    # sub-families), different filters per log, addressed by name and by id, plain and through the macros
+    sizes = (2, 5) if tier == 'quick' else (2, 3, 4, 5)
+    rots = (0, 1, 2) if tier == 'quick' else tuple(range(len(FAMILY_SETTINGS)))
+    for k in sizes:
+        for order in itertools.permutations(FAMILY, k):
+            for rot in (rots if k == 5 else rots[:2]):
+                cases.append(_family_case(order, rot, interleaved=(rot % 2 == 0), dest_filters=(rot % 3 == 2)))
+            # the same world set up through GET_LOG( name)
+            cases.append(_family_case(order, 0, interleaved=True, by_id=False))
     nrand = 600 if tier == 'quick' else 6000
     for _ in range(nrand):
         cases.append(_random_case(rng))
+        # random worlds over the prefix family
+        k = rng.range(2, 5)
+        order = rng.shuffle(list(FAMILY))[:k]
+        c = _family_case(order, rng.below(len(FAMILY_SETTINGS)), rng.chance(1, 2), rng.chance(1, 2),
+                         by_id=rng.chance(2, 3))
+        if rng.chance(1, 2):
+            c = 'P' + rng.choice('er') + ';' + c + ';F%s:%s;V%s;M%s' % (order[0], rng.choice(FAMILY_SETTINGS),
+                                                                      order[0], order[-1])
+        cases.append(c)
     return {'cases': cases, 'exhaustive': True,
             'scopes': ['exhaustive: every history of <= %d settings (28 settings; ignore/exception/replace before '
                        'every later setting) on a log x all 49 (level, class) messages x 7 pre-check levels' % depth,
@@ -424,6 +521,10 @@ def gen_cases(tier, rng):
                        'destination setting)',
                        'exhaustive: all 127 non-empty subsets of the class names (+ spelling variants, malformed lists)',
                        'exhaustive: all id masks 0..63 over four logs with six filtered destinations; by name',
+                       'exhaustive: log names with shared prefixes %s: every creation order of the family and of '
+                       'its sub-families of sizes %s, %d filter assignments, every name (and unknown names %s) '
+                       'and every id probed by plain send, level pre-check and the real LOG_LEVEL macros'
+                       % (FAMILY, list(sizes), len(rots), UNKNOWN_NAMES),
                        'random: %d worlds of 1..5 logs, 0..4 destinations each, 1..8 settings / policy changes / '
                        'late logs and destinations' % nrand]}
 
